@@ -14,16 +14,18 @@ RULE = ('cases = role name X (1-6 abstract letters: ASCII letters, digits, punct
         'without the keys (string and non-string scalar values) x credentials with 0-6 roles (duplicates, case variants), '
         'an empty list, or no roles entry x the check alone, under not, or inside a random expression with other role '
         'checks. Non-trivial = the reference allows for some role of the credentials AND X is spelled in a different '
-        'case than the matching role, or denies although a role shares a prefix with X; distinct = distinct (rule, target, creds). Credentials are passed as a dict, a RequestContext or its policy-values mapping. Stratum `list-form`: list-of-lists rules whose role names contain spaces / parentheses. Stratum `overlap`: two requests evaluate the same rule at the same time (every single pre-emption of one by the other, deterministic scheduler). Stratum `sequence`: one credentials object whose roles list is mutated in place (append, remove, item assignment, clear) between consecutive calls. Stratum `case-keys`: 2-3 `%(key)s` placeholder keys that differ only in letter case (each present in the target with its own value or absent), in %(k)s / prefix%(k)s / %(k1)s%(k2)s form, plus literal role names that differ only in letter case, parsed one after the other in the same process, side by side as rules of one rule set, and together in one random expression; every decision is compared with the abstract-letter reference in which a target key is the exact string (another case = another key).')
+        'case than the matching role, or denies although a role shares a prefix with X; distinct = distinct (rule, target, creds). Credentials are passed as a dict, a RequestContext or its policy-values mapping. Stratum `list-form`: list-of-lists rules whose role names contain spaces / parentheses. Stratum `overlap`: two requests evaluate the same rule at the same time (every single pre-emption of one by the other, deterministic scheduler). Stratum `sequence`: one credentials object whose roles list is mutated in place (append, remove, item assignment, clear) between consecutive calls. Stratum `case-keys`: 2-3 `%(key)s` placeholder keys that differ only in letter case (each present in the target with its own value or absent), in %(k)s / prefix%(k)s / %(k1)s%(k2)s form, plus literal role names that differ only in letter case, parsed one after the other in the same process, side by side as rules of one rule set, and together in one random expression; every decision is compared with the abstract-letter reference in which a target key is the exact string (another case = another key). Stratum `nested-target`: placeholder keys that contain dots (2-5 segments) x targets that hold, next to or instead of that exact key, nested mappings (depth 1-3, also lists of mappings and mapping values under keys that themselves contain dots) whose dotted path spells the placeholder key - only the nested mapping (the referenced key is absent: deny), the exact key AND the nested mapping with different role names (X is the value under the exact key), only the exact dotted key - in %(k)s / prefix%(k)s / %(k1)s%(k2)s form, alone, under not and in random expressions with literal role checks, credentials as dict / RequestContext / policy-values mapping, plus histories in which ONE target object and ONE credentials object are reused across consecutive calls while the exact key, the nested value and the roles list are changed in place; the reference reads the target as a plain mapping of exact keys (a nested mapping is just a value under its own key).')
 ASSUMPTIONS = ['letters with context-dependent or one-to-many case mappings are excluded, as the quantifier says',
                'a stray % outside %(key)s is excluded (statement is about %(key)s placeholders)',
                'credentials roles are a list of strings',
-               'target keys are exact strings: a placeholder key spelled in another letter case references another key (stratum case-keys)']
+               'target keys are exact strings: a placeholder key spelled in another letter case references another key (stratum case-keys)',
+               'a placeholder key that contains dots references the target key with exactly that spelling (what %-formatting with a mapping does); data nested below other keys is not "the referenced key" (stratum nested-target)']
 LEVEL_TEXT = ('Seeded sampling of the (role name, form, target, credentials, context) space with an oracle that is '
               'independent of any case-folding routine; the space is infinite, so sampling with a structured generator is the level.')
 LEVEL_NOTE = 'trusted: the letter table is verified at start-up to be one-to-one under str.lower/str.upper'
 PLAN = {'quick': dict(shards=4, wall=120), 'thorough': dict(shards=16, wall=400)}
-MIN = {'evaluations': 5000, 'allow_decisions': 500, 'deny_decisions': 500, 'case_variant_matches': 100, 'sequence_decisions': 1000, 'non_dict_credentials': 1000, 'list_form_role_names': 200, 'overlapping_evaluations': 100, 'case_variant_key_decisions': 5000, 'case_variant_keys_told_apart': 500}
+MIN = {'evaluations': 5000, 'allow_decisions': 500, 'deny_decisions': 500, 'case_variant_matches': 100, 'sequence_decisions': 1000, 'non_dict_credentials': 1000, 'list_form_role_names': 200, 'overlapping_evaluations': 100, 'case_variant_key_decisions': 5000, 'case_variant_keys_told_apart': 500,
+       'nested_target_decisions': 2000, 'nested_value_would_decide_otherwise': 300, 'nested_target_sequence_decisions': 500}
 ANCHORS = ['oslo_policy._checks:RoleCheck.__call__', 'oslo_policy.policy:Enforcer.enforce']
 REQUIRED_ANCHORS = ['oslo_policy.policy:Enforcer.enforce']
 N = {'quick': 100000, 'thorough': 3000000}
@@ -149,6 +151,10 @@ def check_case(ctx, real, case):
     except Exception as e:
         got = 'EXC:' + type(e).__name__
     ctx.count('allow_decisions' if got is True else 'deny_decisions' if got is False else 'exceptions')
+    if case.get('nested'):
+        ctx.count('nested_target_decisions')
+        if case.get('alt_want') != case['want']:
+            ctx.count('nested_value_would_decide_otherwise')
     if any(case['leaf_truth']):
         # a leaf matched: was it spelled in another case than the role it matched?
         roles = case['creds'].get('roles', [])
@@ -163,8 +169,11 @@ def check_case(ctx, real, case):
             key = 'held-role-denied'
         else:
             key = 'unheld-role-allowed'
-        ctx.violation(key, case, {'rule': case['rule'], 'target': case['target'], 'creds': case['creds'],
-                                  'expected': case['want'], 'observed': got})
+        detail = {'rule': case['rule'], 'target': case['target'], 'creds': case['creds'], 'expected': case['want'], 'observed': got}
+        if case.get('nested'):
+            detail['placeholder_keys'] = case['nested']
+            detail['decision_if_dotted_paths_of_nested_mappings_were_keys'] = case.get('alt_want')
+        ctx.violation(key, case, detail)
 
 
 def check_sequence(ctx, real, rnd):
@@ -419,6 +428,237 @@ def check_case_keys(ctx, real, rnd):
         ctx.case(['case-keys', target, creds, [s['rules'] for s in steps]], nontrivial=True, stratum='case-keys')
 
 
+SEGCH = list('0123456789_-')
+
+
+def mk_path(rnd, tag):
+    """Segments of a placeholder key that contains dots: 2-5 segments of letters (either case), digits, _ and -; `tag`
+    makes the first segment (the top-level key of the nested form) unique within a case."""
+    segs = []
+    for _ in range(rnd.randint(2, 5)):
+        seg = ''.join(rnd.choice(PAIRS[rnd.randrange(len(PAIRS))]) if rnd.random() < 0.75 else rnd.choice(SEGCH)
+                      for _ in range(rnd.randint(1, 4)))
+        segs.append(seg)
+    segs[0] = segs[0] + tag
+    return segs
+
+
+def nest(rnd, segs, value, decoys):
+    """A nested form of `'.'.join(segs) -> value`: the segments are grouped into 2-4 consecutive groups (a group of more
+    than one segment = a key that itself contains dots), group 0 is the top-level key, the others nest below it (depth
+    1-3).  Mappings may carry sibling keys and may be wrapped in a one- or two-element list.  Returns (top key, value)."""
+    g = rnd.randint(2, min(4, len(segs)))
+    cuts = sorted(rnd.sample(range(1, len(segs)), g - 1))
+    groups = ['.'.join(segs[a:b]) for a, b in zip([0] + cuts, cuts + [len(segs)])]
+    inner = value
+    listed = False
+    for grp in reversed(groups[1:]):
+        m = {grp: inner}
+        if rnd.random() < 0.3:
+            m[rnd.choice(['id', 'name', 'other', grp + '_'])] = rnd.choice(decoys)      # none of them can equal a segment group
+        inner = m
+        if rnd.random() < 0.12:
+            inner = [inner] if rnd.random() < 0.6 else [inner, {grp: rnd.choice(decoys)}]
+            listed = True
+    return groups[0], inner, listed
+
+
+def gen_nested_leaf(rnd, pool, tag, target):
+    """One `role:` leaf whose placeholder key contains dots.  Returns (text of X, ids of X read from the target's own
+    keys or None when the referenced key is absent, ids of X if dotted paths into nested mappings counted as keys - only
+    used to tell which cases can distinguish the two readings -, description)."""
+    segs = mk_path(rnd, tag)
+    path = '.'.join(segs)
+    situation = rnd.choice(['nested-only', 'nested-only', 'both', 'both', 'flat-only'])
+    if rnd.random() < 0.1:
+        num = rnd.choice([7, 42, 0, 12345])
+        nv, nval = ids_of_scalar(num), num
+    else:
+        nv = rnd.choice(pool)
+        nval = spell(rnd, nv)
+    flat = alt = None
+    listed = False
+    if situation != 'nested-only':
+        flat = rnd.choice([p for p in pool if p != nv])
+        target[path] = spell(rnd, flat)
+        alt = flat
+    if situation != 'flat-only':
+        top, inner, listed = nest(rnd, segs, nval, [spell(rnd, p) for p in pool])
+        target[top] = inner
+        if not listed:
+            alt = nv
+    elif rnd.random() < 0.3:
+        # a nested mapping next to the exact key that does NOT spell the placeholder key
+        target[segs[0]] = {'.'.join(segs[1:]) + '_': spell(rnd, nv)}
+    form = rnd.choice(['ph', 'ph', 'pre', 'two'])
+    ph = '%%(%s)s' % path
+    if form == 'ph':
+        text, pre, post = ph, (), ()
+    elif form == 'pre':
+        p = rnd.choice(pool)
+        text, pre, post = spell(rnd, p) + ph, p, ()
+    else:
+        p = rnd.choice(pool)
+        target['w' + tag] = spell(rnd, p)          # 'w' is no segment letter: cannot collide with a path
+        if rnd.random() < 0.5:
+            text, pre, post = '%%(w%s)s' % tag + ph, p, ()
+        else:
+            text, pre, post = ph + '%%(w%s)s' % tag, (), p
+    ids = None if flat is None else pre + flat + post
+    alt_ids = None if alt is None else pre + alt + post
+    return text, ids, alt_ids, [situation, path] + (['list-of-mappings'] if listed else [])
+
+
+def distinct_pool(rnd, n):
+    pool = []
+    while len(pool) < n:
+        x = mk_name(rnd)
+        if x not in pool:
+            pool.append(x)
+    return pool
+
+
+def gen_nested_case(rnd):
+    """Stratum nested-target: same shape of case as gen_case (executed and replayed by check_case)."""
+    pool = distinct_pool(rnd, 3)
+    nleaves = 1 if rnd.random() < 0.55 else rnd.randint(2, 3)
+    target = {}
+    leaves, alts, descr = [], [], []
+    for li in range(nleaves):
+        if li == 0 or rnd.random() < 0.7:
+            text, ids, alt_ids, d = gen_nested_leaf(rnd, pool, str(li), target)
+            descr.append(d)
+        else:
+            x = rnd.choice(pool)
+            text, ids, alt_ids = spell(rnd, x), x, x
+        if text.endswith(')') or text.startswith('(') or text.lower() in ('and', 'or', 'not'):
+            z = (('L', 5),)
+            text, ids, alt_ids = 'z' + text + 'z', (None if ids is None else z + ids + z), (None if alt_ids is None else z + alt_ids + z)
+        leaves.append((text, ids))
+        alts.append(alt_ids)
+    if rnd.random() < 0.3:
+        target[rnd.choice(['project_id', 'name', 'id'])] = 'p1'
+    mode = rnd.random()
+    roles = None
+    if mode < 0.05:
+        creds = {}
+    elif mode < 0.1:
+        roles, creds = [], {'roles': []}
+    else:
+        cands = [i for _, i in leaves if i] + [a for a in alts if a]
+        roles = [rnd.choice(pool) for _ in range(rnd.randint(0, 2))]
+        if cands and rnd.random() < 0.8:
+            roles.insert(rnd.randint(0, len(roles)), rnd.choice(cands))
+        if not roles:
+            roles = [rnd.choice(pool)]
+        creds = {'roles': [spell(rnd, r) for r in roles]}
+    if rnd.random() < 0.5:
+        creds['user_id'] = 'u'
+    if nleaves == 1:
+        ast = rnd.choice([('leaf', 0), ('leaf', 0), ('not', ('leaf', 0)), ('and', [('leaf', 0), ('const', True)]),
+                          ('or', [('const', False), ('leaf', 0)])])
+    else:
+        ast = expr.random_ast(rnd, 2, nleaves, p_const=0.05)
+    truth = [ids is not None and roles is not None and any(r == ids for r in roles) for _, ids in leaves]
+    alt_truth = [a is not None and roles is not None and any(r == a for r in roles) for a in alts]
+    rule = expr.spell(expr.to_tokens(ast, lambda i: 'role:' + leaves[i][0]))
+    return dict(rule=rule, target=target, creds=creds, want=expr.ev(ast, truth), leaf_truth=truth,
+                rep=rnd.choice(['dict', 'dict', 'ctx', 'pv']), nested=descr, alt_want=expr.ev(ast, alt_truth))
+
+
+def innermost(target, top, path):
+    """(mapping, key) of the nested entry below target[top] whose dotted path spells `path` (no lists on the way)."""
+    rest = path[len(top) + 1:]
+    m = target[top]
+    while True:
+        for k in m:
+            if rest == k:
+                return m, k
+            if rest.startswith(k + '.') and isinstance(m[k], dict):
+                m, rest = m[k], rest[len(k) + 1:]
+                break
+        else:
+            raise KeyError(path)
+
+
+def run_nested_sequence(ctx, real, case):
+    """ONE target object and ONE credentials object (with one roles list) are handed to every call; between the calls the
+    exact dotted key is set / deleted, the nested value is replaced and the roles list is rewritten - all in place.
+    Every step records the decision the reference wants; used by the run and by replay."""
+    import copy
+    policy, enf = real
+    enf.set_rules(policy.Rules.from_dict({'p': case['rule']}))
+    target = copy.deepcopy(case['target'])
+    live = []
+    creds = {'roles': live, 'user_id': 'u'}
+    path, top = case['path'], case['top']
+    for n, step in enumerate(case['steps']):
+        op, arg = step['op'], step['arg']
+        if op == 'roles':
+            live[:] = arg
+        elif op == 'flat-set':
+            target[path] = arg
+        elif op == 'flat-del':
+            target.pop(path, None)
+        elif op == 'nested-set':
+            m, k = innermost(target, top, path)
+            m[k] = arg
+        try:
+            got = bool(enf.enforce('p', target, creds))
+        except Exception as e:
+            got = 'EXC:' + type(e).__name__
+        ctx.count('nested_target_sequence_decisions')
+        ctx.count('allow_decisions' if got is True else 'deny_decisions' if got is False else 'exceptions')
+        if got != step['want']:
+            key = 'role-check-raises' if isinstance(got, str) else 'held-role-denied' if step['want'] else 'unheld-role-allowed'
+            if not isinstance(got, str) and not live:
+                key = 'no-roles-not-denied'
+            ctx.violation(key, case, {'rule': case['rule'], 'step': n, 'operation': [op, arg], 'target_now': copy.deepcopy(target),
+                                      'roles_now': list(live), 'expected': step['want'], 'observed': got,
+                                      'history': 'the same target object and the same credentials object in every call of this case'})
+            return False
+    return True
+
+
+def check_nested_sequence(ctx, real, rnd):
+    pool = distinct_pool(rnd, 3)
+    segs = mk_path(rnd, '')
+    path = '.'.join(segs)
+    while True:
+        top, inner, listed = nest(rnd, segs, spell(rnd, pool[0]), [spell(rnd, p) for p in pool])
+        if not listed:
+            break
+    target = {top: inner}
+    flat = None                                # abstract ids under the exact key (None = the key is absent)
+    if rnd.random() < 0.4:
+        flat = rnd.choice(pool)
+        target[path] = spell(rnd, flat)
+    import copy
+    start = copy.deepcopy(target)
+    negate = rnd.random() < 0.3
+    rule = ('not ' if negate else '') + 'role:%%(%s)s' % path
+    roles = []
+    steps = []
+    for _ in range(rnd.randint(3, 7)):
+        op = rnd.choice(['roles', 'roles', 'flat-set', 'flat-del', 'nested-set', 'none'])
+        arg = None
+        if op == 'roles':
+            roles = [rnd.choice(pool) for _ in range(rnd.randint(0, 3))]
+            arg = [spell(rnd, r) for r in roles]
+        elif op == 'flat-set':
+            flat = rnd.choice(pool)
+            arg = spell(rnd, flat)
+        elif op == 'flat-del':
+            flat = None
+        elif op == 'nested-set':
+            arg = spell(rnd, rnd.choice(pool))
+        want = flat is not None and any(r == flat for r in roles)
+        steps.append(dict(op=op, arg=arg, want=(not want) if negate else want))
+    case = dict(nested_sequence=True, rule=rule, target=start, path=path, top=top, steps=steps)
+    if run_nested_sequence(ctx, real, case):
+        ctx.case(['nested-sequence', rule, start, steps], nontrivial=True, stratum='nested-target-sequence')
+
+
 def run(ctx):
     ctx.reserve(0.8)          # the strata that come last (overlapping operations) keep a fifth of the wall budget
     self_check()
@@ -438,6 +678,13 @@ def run(ctx):
             check_list_form(ctx, (policy, enf), ctx.rnd)
         if i % 10 == 0:
             check_case_keys(ctx, (policy, enf), ctx.rnd)
+        if i % 4 == 1:
+            ncase = gen_nested_case(ctx.rnd)
+            check_case(ctx, (policy, enf), ncase)
+            if i % 4000 == 1:
+                ctx.sample({k: ncase[k] for k in ('rule', 'target', 'creds', 'want', 'nested')}, stratum='nested-target')
+        if i % 20 == 3:
+            check_nested_sequence(ctx, (policy, enf), ctx.rnd)
     ctx.stratum('random', exhaustive=False)
     ctx.release()
     # overlapping evaluations last: the line-level scheduler slows everything that runs after it is installed
@@ -458,6 +705,8 @@ def replay(ctx, case):
         return replay_sequence(ctx, (policy, enf), case)
     if case.get('case_keys'):
         return run_case_keys(ctx, (policy, enf), case)
+    if case.get('nested_sequence'):
+        return run_nested_sequence(ctx, (policy, enf), case)
     if case.get('overlap'):
         from pv.mon import sched
         try:
